@@ -623,7 +623,13 @@ def gen_C11(tier, seed, unit, nunits):
             pass
     return out
 
-import gen_ext_ops
+import gen_ext_ops, gen_ext_from
+def gen_C04x(tier, seed, unit, nunits):
+    """C04 requests + the type-level From / LossyFrom impls between fixed-point types and primitives (tools/gen_ext_from.py)"""
+    out = dict(gen_C04(tier, seed, unit, nunits))
+    for b, lines in gen_ext_from.gen(tier, seed, unit, nunits).items():
+        out.setdefault(b, []).extend(lines)
+    return out
 def gen_C02x(tier, seed, unit, nunits):
     """C02 requests + the operator trait impls of plain F in every variant (`fprog`, tools/gen_ext_ops.py)"""
     out = dict(gen_C02(tier, seed, unit, nunits))
@@ -643,7 +649,7 @@ PROPS = {
                      'non-trivial = operand magnitude > 1 or a byte-string argument',
                 assumptions=['serde form {bits}: not exercised (no serde_json in the offline registry); little-endian target for *_ne_bytes']),
     'C03': dict(lean_modules=['SfxProps.C03'], bins=['conv'], profiles=['rel'], gen=gen_C03),
-    'C04': dict(lean_modules=['SfxProps.C04'], bins=['conv'], profiles=['chk', 'rel'], gen=gen_C04),
+    'C04': dict(lean_modules=['SfxProps.C04', 'SfxProps.C04Prim'], bins=['conv'], profiles=['chk', 'rel'], gen=gen_C04x),
     'C05': dict(lean_modules=['SfxProps.C05'], bins=['conv'], profiles=['chk', 'rel'], gen=gen_C05),
     'C12': dict(lean_modules=['SfxProps.C12', 'SfxProps.C12Tan'], bins=['math'], profiles=['chk', 'rel'], gen=gen_C12),
     'C13': dict(lean_modules=['SfxProps.C13'], bins=['math'], profiles=['rel'], gen=gen_C13, oracle=True),
